@@ -498,6 +498,121 @@ def r04_5(chk, facts):
                 fn['n'], vn, bad[1].line, bad[0].line, vn), None, fn['q'])
     chk.require(n >= 8, 'R04.5: only %d storage views crossing a resize found' % n)
 
+def _fe_form(e, vname, consts):
+    """(coefficient of v.f or v.e, constant) of an expression linear in one field of the local `vname`; shifts by constants are multiplications."""
+    from fractions import Fraction
+    x = A.strip(e, casts=True)
+    if x is None: return None
+    c = A.const(x)
+    if c is not None: return (Fraction(0), Fraction(c), None)
+    k = x.get('k')
+    if k == 'DeclRefExpr' and x.get('id') in consts: return (Fraction(0), Fraction(consts[x['id']]), None)
+    if k == 'MemberExpr' and (A.strip(x.get('base')) or {}).get('n') == vname: return (Fraction(1), Fraction(0), x.get('n'))
+    if k == 'BinaryOperator' and x.get('op') in ('+', '-', '*', '<<'):
+        a, b = _fe_form(x.get('lhs'), vname, consts), _fe_form(x.get('rhs'), vname, consts)
+        if a is None or b is None: return None
+        fld = a[2] or b[2]
+        if a[2] and b[2] and a[2] != b[2]: return None
+        if x['op'] in ('+', '-'):
+            sg = 1 if x['op'] == '+' else -1
+            return (a[0] + sg * b[0], a[1] + sg * b[1], fld)
+        if x['op'] == '<<':
+            if b[0] != 0 or b[1] < 0 or b[1] > 8: return None
+            m = Fraction(2) ** int(b[1]); return (a[0] * m, a[1] * m, fld)
+        if a[0] == 0: return (b[0] * a[1], b[1] * a[1], fld)
+        if b[0] == 0: return (a[0] * b[1], a[1] * b[1], fld)
+    return None
+
+def r04_10(chk, facts):
+    """Grisu boundaries: m+ = v + ulp/2, m- = v - ulp/2, or v - ulp/4 exactly when the significand is the hidden bit (IEEE 754 neighbours)."""
+    from fractions import Fraction
+    from .. import guards as G
+    chk.rule('R04.10', 'Grisu boundaries: normalized_boundaries computes the half-way points to the neighbouring doubles of v = f*2^e as '
+                       '(2f+1)*2^(e-1) above and (2f-1)*2^(e-1) below, and as (4f-1)*2^(e-2) below exactly when f equals the hidden bit 2^52 (the '
+                       'lower neighbour of a power of two is half as far); compared as value offsets in units of 2^e after normalising '
+                       'shifts and multiplications, so `(f<<2)-1`, `4*f-1` and `(4f-2)` with e-2 are told apart by value, not by spelling', floor=3)
+    fns = [f for f in facts.functions if f['n'] == 'normalized_boundaries' and f.get('body') is not None and f['file'].endswith('detail/grisu3.hpp')]
+    chk.require(len(fns) >= 1, 'R04.10: normalized_boundaries not found in detail/grisu3.hpp')
+    consts = {v['id']: A.const(v.get('init')) for v in facts.vars if v.get('const') and v.get('init') is not None and A.const(v.get('init')) is not None}
+    n = 0
+    for fn in U.one_per_inst(fns)[:1]:
+        chk.analysed(fn)
+        g = C.CFG(fn['body'])
+        # the local that holds the decomposed double: initialised from the double parameter by a call
+        vdecl = [x for x in A.walk(fn['body']) if x.get('k') == 'VarDecl' and x.get('init') is not None and A.is_call(A.strip(x['init'], casts=True) or {})
+                 and 'diy_fp' in A.callee_name(A.strip(x['init'], casts=True))]
+        chk.require(len(vdecl) == 1, 'R04.10: the decomposition `v = double2diy_fp(d)` not found')
+        if len(vdecl) != 1: return
+        vname = vdecl[0]['n']
+        locals_init = {x['id']: x['init'] for x in A.walk(fn['body']) if x.get('k') == 'VarDecl' and x.get('init') is not None}
+        def closer_test(cond, lab):
+            """True/False: the branch is the 'significand == hidden bit' / its negation; None: some other test."""
+            c = A.strip(cond, casts=True)
+            if c is not None and c.get('k') == 'DeclRefExpr' and c.get('id') in locals_init: c = A.strip(locals_init[c['id']], casts=True)
+            neg = False
+            while c is not None and c.get('k') == 'UnaryOperator' and c.get('op') == '!':
+                neg = not neg; c = A.strip(c.get('sub'), casts=True)
+                if c is not None and c.get('k') == 'DeclRefExpr' and c.get('id') in locals_init: c = A.strip(locals_init[c['id']], casts=True)
+            cm = G.comparison(c) if c is not None else None
+            if not cm or cm[0] not in ('==', '!='): return None, A.text(c) if c is not None else '?'
+            fa, fb = _fe_form(cm[1], vname, consts), _fe_form(cm[2], vname, consts)
+            if fa is None or fb is None: return None, A.text(c)
+            if fb[2]: fa, fb = fb, fa
+            if not (fa[2] == 'f' and fa[0] == 1 and fa[1] == 0 and fb[0] == 0): return None, A.text(c)
+            if fb[1] != 2 ** 52: return 'wrong-constant', A.text(c)
+            val = (cm[0] == '==') == bool(lab)
+            return (val != neg), A.text(c)
+        # assignments X.f = ..., X.e = ... to locals other than v, grouped by (variable, block)
+        groups = {}
+        for x in A.walk_no_lambda(fn['body']):
+            if x.get('k') == 'BinaryOperator' and x.get('op') == '=':
+                l = A.strip(x.get('lhs'))
+                if l is None or l.get('k') != 'MemberExpr' or l.get('n') not in ('f', 'e'): continue
+                b = A.strip(l.get('base'))
+                if b is None or b.get('k') != 'DeclRefExpr' or b.get('n') == vname: continue
+                fm = _fe_form(x.get('rhs'), vname, consts)
+                if fm is None or fm[2] != l.get('n'): continue          # e.g. mi.e = pl.e (alignment, not a boundary definition)
+                nd = g.node_of(x)
+                gs = tuple((id(a), lab) for a, lab, e in (g.guards(nd) if nd is not None else []) if isinstance(lab, bool))
+                groups.setdefault((b.get('n'), gs), {})[l.get('n')] = (fm, x, nd)
+        found = {}; failed = []
+        _fail = chk.fail
+        def fail_(*a, **k): failed.append(1); _fail(*a, **k)
+        for (var, gs), d in sorted(groups.items(), key=lambda kv: kv[1].get('f', kv[1].get('e'))[1].get('l', 0)):
+            if 'f' not in d or 'e' not in d: continue
+            (cf, c0, _), xf, nd = d['f']; (ce, de, _), xe, _ = d['e']
+            if ce != 1 or cf == 0: continue
+            n += 1
+            scale = Fraction(2) ** int(de)
+            value_coef = cf * scale; offset = c0 * scale            # boundary = value_coef * v + offset * 2^e
+            branch = None; why = ''
+            for a, lab, e in (g.guards(nd) if nd is not None else []):
+                if not isinstance(lab, bool): continue
+                branch, why = closer_test(a, lab)
+                break
+            site = U.site(fn, '%s@%d' % (var, xf.get('l')))
+            want = {None: None, True: Fraction(-1, 4), False: Fraction(-1, 2)}
+            if branch == 'wrong-constant':
+                fail_('R04.10', site, fn['file'], xf.get('l'), 'the lower boundary is chosen by the test `%s`, which does not compare the significand with the hidden bit 2^52: the lower '
+                         'neighbour is half as far exactly for powers of two' % why, None, fn['q'])
+            elif value_coef != 1:
+                fail_('R04.10', site, fn['file'], xf.get('l'), 'boundary %s = (%s*f%+d)*2^(e%+d) is not v plus an offset' % (var, cf, c0, de), None, fn['q'])
+            elif nd is not None and any(isinstance(lab, bool) for a, lab, e in g.guards(nd)) and branch is None:
+                fail_('R04.10', site, fn['file'], xf.get('l'), 'the lower boundary is chosen by the test `%s`, which is not an equality test of the significand v.f with the hidden bit 2^52' % why, None, fn['q'])
+            elif branch is None:
+                if offset != Fraction(1, 2) and offset != Fraction(-1, 2):
+                    fail_('R04.10', site, fn['file'], xf.get('l'), 'unconditional boundary %s = v %+s ulp: the half-way point to a neighbouring double is v +/- 1/2 ulp' % (var, offset), None, fn['q'])
+                else: chk.ok('R04.10', site, {'boundary': 'v %+s ulp' % offset, 'branch': 'unconditional'}); found[('u', offset)] = 1
+            elif offset != want[branch]:
+                fail_('R04.10', site, fn['file'], xf.get('l'), 'lower boundary %s = (%s*f%+d)*2^(e%+d) = v %+s ulp in the branch where the significand %s the hidden bit; IEEE 754 neighbours put it at v %+s ulp'
+                         % (var, cf, c0, de, offset, 'equals' if branch else 'differs from', want[branch]), None, fn['q'])
+            else: chk.ok('R04.10', site, {'boundary': 'v %+s ulp' % offset, 'branch': 'significand == 2^52' if branch else 'significand != 2^52'}); found[(branch, offset)] = 1
+        need = [('u', Fraction(1, 2)), (True, Fraction(-1, 4)), (False, Fraction(-1, 2))]
+        if not failed:
+            missing = [k for k in need if k not in found]
+            chk.require(not missing or n < 3, 'R04.10: boundary definitions found do not include %s' % missing)
+    chk.require(n >= 3, 'R04.10: only %d boundary definitions found in normalized_boundaries' % n)
+
 def run(chk, tier, only_rule=None):
     chk.explanation = EXPLANATION
     chk.not_decided = NOT_DECIDED
@@ -508,6 +623,7 @@ def run(chk, tier, only_rule=None):
     r04_3(chk, facts)
     r04_8(chk, tier)
     r04_9(chk, facts)
+    r04_10(chk, facts)
     r04_4(chk, facts)
     r04_5(chk, facts)
     r04_6(chk, facts)
